@@ -973,6 +973,25 @@ impl<'a, 'b, 'ast> Visit<'ast> for Collector<'a, 'b> {
                     }
                 } }
             }
+            Expr::MethodCall(c) if rw.for_iter && c.method == "next" && c.args.is_empty() && matches!(&*c.receiver, Expr::MethodCall(sb) if sb.method == "sorted_by" && sb.args.len() == 1 && matches!(&sb.args[0], Expr::Closure(cc) if cc.inputs.len() == 2) && matches!(&*sb.receiver, Expr::MethodCall(m) if m.method == "into_iter" && m.args.is_empty() && matches!(&*m.receiver, Expr::Path(_)))) => {
+                // R31 (vector form): `V.into_iter().sorted_by(|&a, &b| C).next()` on a Vec of Copy elements -> the same selection loop over V's indices
+                if let Expr::MethodCall(sb) = &*c.receiver { if let (Expr::Closure(cc), Expr::MethodCall(m)) = (&sb.args[0], &*sb.receiver) {
+                    let idx = rw.loop_idx.get();
+                    rw.loop_idx.set(idx + 1);
+                    let a = e.span().byte_range().start;
+                    let b = cc.body.span().byte_range().start;
+                    rw.loop_headers.borrow_mut().push(rw.src[a..b].split_whitespace().collect::<Vec<_>>().join(" "));
+                    let v = rw.render_expr(&m.receiver);
+                    let p1 = rw.src[cc.inputs[0].span().byte_range()].trim().trim_start_matches('&').trim().to_string();
+                    let p2 = rw.src[cc.inputs[1].span().byte_range()].trim().trim_start_matches('&').trim().to_string();
+                    let cmp = rw.render_expr(&cc.body);
+                    let inv = rw.section(&format!("loop {idx}")).map(|t| mark(t)).unwrap_or_default();
+                    let text = format!("({{ let __v{idx} = {v}; let mut __it{idx}: usize = 0; let __hi{idx} = __v{idx}.len(); let mut __best{idx} = None;\nwhile __it{idx} < __hi{idx}\n{inv}\ndecreases __hi{idx} - __it{idx}, //@p\n{{ let __x = __v{idx}[__it{idx}]; __it{idx} += 1; __best{idx} = match __best{idx} {{ None => Some(__x), Some(__b0) => {{ let {p1} = __x; let {p2} = __b0; match {cmp} {{ core::cmp::Ordering::Less => Some(__x), _ => Some(__b0) }} }} }}; }} __best{idx} }})");
+                    rw.count("R31");
+                    let sp = e.span().byte_range();
+                    self.edits.push((sp.start, sp.end, text));
+                } }
+            }
             Expr::MethodCall(c) if rw.for_iter && c.method == "next" && c.args.is_empty() && matches!(&*c.receiver, Expr::MethodCall(sb) if sb.method == "sorted_by" && sb.args.len() == 1 && matches!(&sb.args[0], Expr::Closure(cc) if cc.inputs.len() == 2) && matches!(&*sb.receiver, Expr::MethodCall(m) if m.method == "filter" && m.args.len() == 1 && matches!(&m.args[0], Expr::Closure(cl) if cl.inputs.len() == 1) && { let mut r = &*m.receiver; while let Expr::Paren(p) = r { r = &p.expr; } matches!(r, Expr::Range(rg) if rg.start.is_some() && rg.end.is_some() && matches!(rg.limits, syn::RangeLimits::HalfOpen(_))) })) => {
                 // R31 (option for_iter=1): `(lo..hi).filter(|&j| B).sorted_by(|&a, &b| C).next()` -> the selection loop for the element a stable
                 //   sort puts first (the first minimal one, for a comparator that is a total preorder):
